@@ -60,4 +60,4 @@ if __name__ == "__main__":
         sys.stdout.write("HARNESS-ERROR\n" + traceback.format_exc() + "\n")
         rc = 2
     sys.stdout.flush()
-    os._exit(rc)
+    sys.exit(rc)
